@@ -1,6 +1,6 @@
 (* C13/TimerLemmas.v — proofs about Timer.v *)
 From Common Require Import Prelude.
-From C13 Require Import Timer.
+From C13 Require Import Model Lemmas Timer.
 Open Scope Z_scope.
 
 Lemma check_done_notdone f c st : is_done c st = false -> check_done f c st = (st, false).
@@ -72,7 +72,7 @@ Proof.
   destruct a; cbn [do_action]; auto.
   - apply start_good; auto.
   - unfold do_stop. apply post_good; cbn; auto.
-  - unfold do_pause. destruct (0 <? ms); [unfold set_pause at 1; unfold log_good; cbn|]; apply post_good; cbn; auto;
+  - unfold do_pause. destruct (0 <? ms); [unfold pause_add, set_dm, set_pause, log_good; cbn [tlog]|]; apply post_good; cbn; auto;
       destruct (c_legacy c); exact H.
   - apply G. apply post_good; cbn; auto.
   - apply G. apply post_good; cbn; auto.
@@ -92,6 +92,15 @@ Proof.
     apply post_tick_good; auto.
   - unfold fire_pause. destruct (pause st); [|apply post_good; cbn; auto].
     destruct ((tnow st <=? z) && le_opt z (sys_deadline st)); [|apply post_good; cbn; auto].
+    apply start_good; auto.
+  - unfold fire_tick_at. destruct (sys st) as [[b n]|]; [|apply post_good; cbn; auto].
+    destruct ((tnow st <=? t) && (b + n * ival st <=? t) && le_opt (b + n * ival st) (pause st));
+      [|apply post_good; cbn; auto].
+    cbn [running set_sys set_now post]. destruct (running st) eqn:R.
+    + apply post_tick_good; auto. unfold log_good. cbn. constructor; [exact Logic.I|exact H].
+    + unfold log_good. cbn. constructor; [exact Logic.I|exact H].
+  - unfold fire_pause_at. destruct (pause st); [|apply post_good; cbn; auto].
+    destruct ((tnow st <=? t) && (z <=? t) && le_opt z (sys_deadline st)); [|apply post_good; cbn; auto].
     apply start_good; auto.
 Qed.
 
@@ -194,6 +203,14 @@ Proof.
   - unfold fire_pause. destruct (pause st) as [d|] eqn:P; [|auto].
     destruct ((tnow st <=? d) && le_opt d (sys_deadline st)); [|auto].
     apply start_SI; auto. intros _. reflexivity.
+  - unfold fire_tick_at. destruct (sys st) as [[b n]|]; [|auto].
+    destruct ((tnow st <=? t) && (b + n * ival st <=? t) && le_opt (b + n * ival st) (pause st)); [|auto].
+    cbn [running set_sys set_now post]. destruct (running st) eqn:R.
+    + apply post_tick_SI; auto.
+    + split; intro H; cbn in H; congruence.
+  - unfold fire_pause_at. destruct (pause st) as [d|] eqn:P; [|auto].
+    destruct ((tnow st <=? t) && (d <=? t) && le_opt d (sys_deadline st)); [|auto].
+    apply start_SI; auto. intros _. reflexivity.
 Qed.
 
 Lemma trun_SI c steps : c_legacy c = false -> cfg_ok c -> forall st,
@@ -237,13 +254,23 @@ Lemma quiet_fires_l c fires : forallb is_fire fires = true -> forall st,
 Proof.
   unfold trun. induction fires as [|s fires IH]; cbn [fold_left forallb]; intros F st R S P.
   - repeat split; auto. exists []. split; auto.
-  - apply andb_true_iff in F as [F1 F2]. destruct s as [t a| |]; [discriminate| |].
+  - apply andb_true_iff in F as [F1 F2]. destruct s as [t a| | |t|t]; [discriminate| | | |].
     + cbn [do_tstep]. unfold fire_tick. rewrite S.
       destruct (IH F2 (post (TReject 1) st) R S P) as (H1 & H2 & H3 & H4 & rej & H5 & H6).
       repeat split; auto. exists (rej ++ [TReject 1]). split.
       * rewrite forallb_app, H5. reflexivity.
       * rewrite H6. cbn. rewrite <- app_assoc. reflexivity.
     + cbn [do_tstep]. unfold fire_pause. rewrite P.
+      destruct (IH F2 (post (TReject 3) st) R S P) as (H1 & H2 & H3 & H4 & rej & H5 & H6).
+      repeat split; auto. exists (rej ++ [TReject 3]). split.
+      * rewrite forallb_app, H5. reflexivity.
+      * rewrite H6. cbn. rewrite <- app_assoc. reflexivity.
+    + cbn [do_tstep]. unfold fire_tick_at. rewrite S.
+      destruct (IH F2 (post (TReject 1) st) R S P) as (H1 & H2 & H3 & H4 & rej & H5 & H6).
+      repeat split; auto. exists (rej ++ [TReject 1]). split.
+      * rewrite forallb_app, H5. reflexivity.
+      * rewrite H6. cbn. rewrite <- app_assoc. reflexivity.
+    + cbn [do_tstep]. unfold fire_pause_at. rewrite P.
       destruct (IH F2 (post (TReject 3) st) R S P) as (H1 & H2 & H3 & H4 & rej & H5 & H6).
       repeat split; auto. exists (rej ++ [TReject 3]). split.
       * rewrite forallb_app, H5. reflexivity.
@@ -271,4 +298,239 @@ Lemma tick_instant_l c st b n :
 Proof.
   intros S R OK. unfold fire_tick. rewrite S, OK. cbn [running set_sys set_now]. rewrite R.
   eexists. split; [reflexivity|]. cbn. auto.
+Qed.
+
+(* the same on a loop that dispatches late: the n-th expiry is accepted at any t >= b + n*interval (not before), is
+   reported with its scheduled-for instant, changes the count by one and re-arms for b + (n+1)*interval: the schedule
+   does not depend on t (no drift) *)
+Lemma tick_instant_late_l c st b n t :
+  sys st = Some (b, n) -> running st = true ->
+  (tnow st <=? t) && (b + n * ival st <=? t) && le_opt (b + n * ival st) (pause st) = true ->
+  exists st1, fire_tick_at c t st = post_tick_with (cd0 c) st1 /\
+              tnow st1 = t /\ ticks st1 = (if c_down c then ticks st - 1 else ticks st + 1) /\
+              sys st1 = Some (b, n + 1) /\ ival st1 = ival st /\ tlog st1 = TDue (b + n * ival st) :: tlog st.
+Proof.
+  intros S R OK. unfold fire_tick_at. rewrite S, OK. cbn [running set_sys set_now post]. rewrite R.
+  eexists. split; [reflexivity|]. cbn. auto 10.
+Qed.
+
+Lemma tick_early_rejected_l c st b n t :
+  sys st = Some (b, n) -> t < b + n * ival st -> fire_tick_at c t st = post (TReject 2) st.
+Proof.
+  intros S LT. unfold fire_tick_at. rewrite S.
+  assert (E : (b + n * ival st <=? t) = false) by (apply Z.leb_gt; lia).
+  rewrite E, andb_false_r. reflexivity.
+Qed.
+
+(* ---------------------------------------------------------------------------------------- *)
+(* the timer's pause delay IS a delay of the full delay model: [dm st] satisfies the invariant behind every delay_*
+   theorem, and [pause st] is the deadline of its one live handle (named PAUSE) — for every reachable state *)
+Definition RP (st : tst) : Prop :=
+  Inv (dm st) /\
+  match pause st with
+  | None => timers (dm st) = []
+  | Some d => exists tm, timers (dm st) = [tm] /\ t_name tm = PAUSE /\ t_when tm = d /\ t_cb tm = 0
+  end.
+
+Lemma timers_do_remove st n : wf st -> timers (do_remove n st) = rm n (timers st).
+Proof. intro W. rewrite do_remove_nf by exact W. apply timers_removed. Qed.
+
+Lemma timers_do_add st ms n cb kw : wf st -> 0 <= n ->
+  timers (do_add ms n cb kw st) = rm n (timers st) ++ [mkT (next st) (now st + 1000 * ms) n cb kw].
+Proof.
+  intros W Hn. unfold do_add. destruct (Z.ltb_spec n 0); [lia|].
+  set (st0 := mkS (now st) (next st + 1) (dict st) (timers st) (log st)).
+  assert (W0 : wf st0) by (destruct W as [D [N1 N2]]; repeat split; auto).
+  rewrite do_remove_nf by exact W0. cbn. rewrite timers_removed. reflexivity.
+Qed.
+
+Lemma Inv_sync st : Inv (dm st) -> Inv (sync st).
+Proof. apply Inv_with_now. Qed.
+
+Lemma rm_pause_timers st : RP st -> rm PAUSE (timers (sync st)) = [].
+Proof.
+  intros [_ P]. cbn [sync timers]. destruct (pause st).
+  - destruct P as [tm [E [N _]]]. rewrite E. unfold rm. cbn. unfold name_is. rewrite N. cbn. reflexivity.
+  - rewrite P. reflexivity.
+Qed.
+
+Lemma RP_pause_remove st : RP st -> RP (pause_remove st).
+Proof.
+  intro R. pose proof R as [I _]. unfold pause_remove. split; cbn [dm pause set_dm set_pause].
+  - apply Inv_do_remove. apply Inv_sync. exact I.
+  - rewrite timers_do_remove by (apply Inv_wf, Inv_sync; exact I). apply rm_pause_timers. exact R.
+Qed.
+
+Lemma RP_pause_add ms st : RP st -> RP (pause_add ms st).
+Proof.
+  intro R. pose proof R as [I _]. unfold pause_add. split; cbn [dm pause set_dm set_pause].
+  - apply Inv_do_add. apply Inv_sync. exact I.
+  - rewrite timers_do_add by (try (apply Inv_wf, Inv_sync; exact I); unfold PAUSE; lia).
+    rewrite rm_pause_timers by exact R. cbn. eexists. repeat split; reflexivity.
+Qed.
+
+Lemma call_rec_ok : call_ok call_rec.
+Proof. intros u c k rn st I. exact I. Qed.
+
+Lemma RP_pause_fired d st : RP st -> pause st = Some d -> tnow st <= d -> RP (pause_fired d st).
+Proof.
+  intros R P LE. pose proof R as [I Q]. rewrite P in Q. destruct Q as [tm [E [N [W C]]]].
+  unfold pause_fired. split; cbn [dm pause set_dm set_pause set_now].
+  - apply Inv_fire; [apply call_rec_ok|]. apply Inv_sync. exact I.
+  - unfold pause_id. rewrite E. cbn [find]. unfold name_is at 1. rewrite N. cbn [Z.eqb PAUSE].
+    unfold fire, find_timer. cbn [sync timers]. rewrite E. cbn [find]. unfold id_is at 1. rewrite Z.eqb_refl.
+    cbn [now forallb]. rewrite W. change (now (sync st)) with (tnow st).
+    assert (A : (tnow st <=? d) && ((d <=? d) && true) = true).
+    { rewrite andb_true_r. apply andb_true_iff. split; apply Z.leb_le; lia. }
+    rewrite A. unfold call_rec, emit. cbn [timers filter]. unfold id_is. rewrite Z.eqb_refl. reflexivity.
+Qed.
+
+Lemma RP_pause_fired_at t st d : RP st -> pause st = Some d -> tnow st <= t -> d <= t -> RP (pause_fired_at t st).
+Proof.
+  intros R P LE LD. pose proof R as [I Q]. rewrite P in Q. destruct Q as [tm [E [N [W C]]]].
+  unfold pause_fired_at. split; cbn [dm pause set_dm set_pause set_now].
+  - apply Inv_fire_at; [apply call_rec_ok|]. apply Inv_sync. exact I.
+  - unfold pause_id. rewrite E. cbn [find]. unfold name_is at 1. rewrite N. cbn [Z.eqb PAUSE].
+    unfold fire_at, find_timer. cbn [sync timers]. rewrite E. cbn [find]. unfold id_is at 1. rewrite Z.eqb_refl.
+    cbn [now forallb]. rewrite W. change (now (sync st)) with (tnow st).
+    assert (A : (tnow st <=? t) && (d <=? t) && ((d <=? d) && true) = true).
+    { rewrite andb_true_r. repeat (apply andb_true_iff; split); apply Z.leb_le; lia. }
+    rewrite A. unfold call_rec, emit. cbn [timers filter]. unfold id_is. rewrite Z.eqb_refl. reflexivity.
+Qed.
+
+Lemma RP_same st st' : dm st' = dm st -> pause st' = pause st -> RP st -> RP st'.
+Proof. intros D P R. unfold RP. rewrite D, P. exact R. Qed.
+
+Definition cd_rp (cd : cdfn) : Prop := forall st, RP st -> RP (fst (cd st)).
+
+Lemma post_rp e st : RP st -> RP (post e st).
+Proof. apply RP_same; reflexivity. Qed.
+
+Lemma post_tick_rp cd st : cd_rp cd -> RP st -> RP (post_tick_with cd st).
+Proof.
+  intros G R. unfold post_tick_with. pose proof (G st R) as G1. destruct (cd st) as [st1 d]. cbn in G1.
+  destruct d; [exact G1|apply post_rp; exact G1].
+Qed.
+
+Lemma start_rp cd st : cd_rp cd -> RP st -> RP (start_with cd st).
+Proof.
+  intros G R. unfold start_with. destruct (running st); auto.
+  pose proof (G st R) as G1. destruct (cd st) as [st1 d]. cbn in G1. destruct d; auto.
+  apply post_tick_rp; auto. apply post_rp. unfold create_sys.
+  apply (RP_same (pause_remove (set_running true st1))); try reflexivity.
+  apply RP_pause_remove. apply (RP_same st1); auto.
+Qed.
+
+Lemma jump_rp cd c v st : cd_rp cd -> RP st -> RP (jump_with cd c v st).
+Proof. intros G R. unfold jump_with. apply G. apply (RP_same st); auto. Qed.
+
+Lemma restart_rp cd c st : cd_rp cd -> RP st -> RP (restart_with cd c st).
+Proof.
+  intros G R. unfold restart_with. pose proof (jump_rp cd c (c_start c) st G R) as J.
+  destruct (running (jump_with cd c (c_start c) st)); [apply post_tick_rp|apply start_rp]; auto.
+Qed.
+
+Lemma stop_rp st : RP st -> RP (do_stop st).
+Proof.
+  intro R. unfold do_stop. apply post_rp.
+  apply (RP_same (pause_remove st)); try reflexivity. apply RP_pause_remove. exact R.
+Qed.
+
+Lemma complete_rp cd c st : cd_rp cd -> RP st -> RP (complete_with cd c st).
+Proof.
+  intros G R. unfold complete_with. pose proof (stop_rp st R) as S.
+  pose proof (post_rp (TComplete (tnow (do_stop st)) (ticks (do_stop st))) _ S) as S2.
+  destruct (c_roc c); [apply restart_rp; auto|exact S2].
+Qed.
+
+Lemma check_done_rp c f : cd_rp (check_done f c).
+Proof.
+  induction f as [|f IH]; intros st R; cbn [check_done]; destruct (is_done c st); cbn [fst]; try exact R.
+  apply complete_rp; auto.
+Qed.
+
+Lemma pause_rp c ms st : RP st -> RP (do_pause c ms st).
+Proof.
+  intro R. unfold do_pause.
+  set (st0 := set_running false st). assert (R0 : RP st0) by (apply (RP_same st); auto).
+  set (st1 := if c_legacy c then st0 else pause_remove st0).
+  assert (R1 : RP st1) by (unfold st1; destruct (c_legacy c); [exact R0|apply RP_pause_remove; exact R0]).
+  set (st3 := post _ (set_sys None st1)).
+  assert (R3 : RP st3) by (apply (RP_same st1); auto).
+  destruct (0 <? ms); [apply RP_pause_add|]; exact R3.
+Qed.
+
+Lemma action_rp c a st : RP st -> RP (do_action c a st).
+Proof.
+  intro R. pose proof (check_done_rp c FUEL) as G. fold (cd0 c) in G.
+  destruct a; cbn [do_action].
+  - apply start_rp; auto.
+  - apply stop_rp; auto.
+  - apply pause_rp; auto.
+  - apply G. apply (RP_same st); auto.
+  - apply G. apply (RP_same st); auto.
+  - apply jump_rp; auto.
+  - apply jump_rp; auto.
+  - apply restart_rp; auto.
+  - apply (RP_same st); auto.
+  - apply (RP_same st); auto.
+  - apply (RP_same st); auto.
+  - exact R.
+Qed.
+
+Lemma tstep_rp c st s : RP st -> RP (do_tstep c st s).
+Proof.
+  intro R. pose proof (check_done_rp c FUEL) as G. fold (cd0 c) in G.
+  destruct s; cbn [do_tstep].
+  - destruct (text_ok t st); [|exact R].
+    assert (RA : RP (do_action c a (set_now t st))) by (apply action_rp; apply (RP_same st); auto).
+    exact RA.
+  - unfold fire_tick. destruct (sys st) as [[b n]|]; [|exact R].
+    destruct ((tnow st <=? b + n * ival st) && le_opt (b + n * ival st) (pause st)); [|exact R].
+    cbn [running set_sys set_now]. destruct (running st).
+    + apply post_tick_rp; [exact G|]. apply (RP_same st); auto.
+    + apply (RP_same st); auto.
+  - unfold fire_pause. destruct (pause st) as [d|] eqn:P; [|exact R].
+    destruct ((tnow st <=? d) && le_opt d (sys_deadline st)) eqn:A; [|exact R].
+    apply start_rp; [exact G|]. apply RP_pause_fired; [exact R|exact P|].
+    apply andb_true_iff in A as [A _]. apply Z.leb_le in A. exact A.
+  - unfold fire_tick_at. destruct (sys st) as [[b n]|]; [|exact R].
+    destruct ((tnow st <=? t) && (b + n * ival st <=? t) && le_opt (b + n * ival st) (pause st)); [|exact R].
+    cbn [running set_sys set_now post]. destruct (running st).
+    + apply post_tick_rp; [exact G|]. apply (RP_same st); auto.
+    + apply (RP_same st); auto.
+  - unfold fire_pause_at. destruct (pause st) as [d|] eqn:P; [|exact R].
+    destruct ((tnow st <=? t) && (d <=? t) && le_opt d (sys_deadline st)) eqn:A; [|exact R].
+    apply start_rp; [exact G|].
+    apply andb_true_iff in A as [A _]. apply andb_true_iff in A as [A1 A2].
+    apply Z.leb_le in A1. apply Z.leb_le in A2. apply (RP_pause_fired_at t st d); auto.
+Qed.
+
+Lemma trun_rp c steps : forall st, RP st -> RP (trun c steps st).
+Proof.
+  unfold trun. induction steps as [|s steps IH]; cbn; auto. intros st R. apply IH. apply tstep_rp. exact R.
+Qed.
+
+Lemma RP_init c : RP (tinit c).
+Proof. split; cbn; [apply Inv_init|reflexivity]. Qed.
+
+Lemma timer_pause_is_delay_l c steps :
+  let st := trun c steps (tinit c) in
+  Inv (dm st) /\
+  match pause st with
+  | None => timers (dm st) = []
+  | Some d => exists tm, timers (dm st) = [tm] /\ t_name tm = PAUSE /\ t_when tm = d /\ t_cb tm = 0
+  end.
+Proof. cbv zeta. apply (trun_rp c steps (tinit c)). apply RP_init. Qed.
+
+(* hence every event of the private manager's log is justified: the expiry of a timed pause (the call of start()) stems
+   from exactly one pause(ms) at exactly its instant + ms, not after start()/stop()/a later pause removed it, never twice *)
+Lemma timer_pause_justified_l c steps pre e post :
+  List.rev (log (dm (trun c steps (tinit c)))) = pre ++ e :: post -> justified (List.rev pre) e.
+Proof.
+  intro H. destruct (timer_pause_is_delay_l c steps) as [[_ I] _].
+  destruct I as (_ & _ & _ & _ & _ & _ & _ & _ & _ & L).
+  apply (f_equal (@List.rev ev)) in H. rewrite rev_involutive in H.
+  rewrite rev_app_distr in H. cbn in H. rewrite <- app_assoc in H. cbn in H.
+  eapply log_ok_split; eauto.
 Qed.
